@@ -8,7 +8,7 @@ use grin_chain::txhashset::{BitmapAccumulator, BitmapChunk, BitmapSegment};
 use grin_core::core::hash::{Hash, Hashed};
 use grin_core::core::merkle_proof::MerkleProof;
 use grin_core::core::pmmr::segment::{Segment, SegmentIdentifier, SegmentProof};
-use grin_core::core::pmmr::{self, ReadonlyPMMR, VecBackend, PMMR};
+use grin_core::core::pmmr;
 use grin_core::core::transaction::{
 	CommitWrapper, Input, Inputs, KernelFeatures, Output, OutputFeatures, OutputIdentifier, Transaction, TransactionBody, TxKernel,
 	Weighting,
@@ -17,7 +17,7 @@ use grin_core::core::{
 	Block, BlockHeader, CompactBlock, ShortId, UntrustedBlock, UntrustedBlockHeader, UntrustedCompactBlock,
 };
 use grin_core::pow::{Proof, ProofOfWork};
-use grin_core::ser::{self, BufReader, DeserializationMode, PMMRIndexHashable, PMMRable, ProtocolVersion, Readable};
+use grin_core::ser::{self, BufReader, DeserializationMode, PMMRIndexHashable, ProtocolVersion, Readable};
 use grin_keychain::BlindingFactor;
 use grin_p2p::msg::{
 	self, BanReason, GetPeerAddrs, Hand, Locator, Message, MsgHeaderWrapper, OutputBitmapSegmentResponse,
@@ -27,7 +27,6 @@ use grin_p2p::msg::{
 use grin_p2p::types::{AttachmentMeta, PeerAddr};
 use grin_p2p::verif_export::Codec;
 use grin_util::secp::pedersen::{Commitment, RangeProof};
-use grin_util::secp::Signature;
 use grin_util::ToHex;
 use std::collections::HashSet;
 use std::io::Write;
@@ -150,36 +149,40 @@ pub const S_ARCHIVE: &str = "TxHashSetArchive::attachment_meta";
 pub const S_COMMIT_FROM: &str = "Commitment::from_vec";
 pub const S_HASH_FROM: &str = "Hash::from_vec";
 pub const S_MSG_FMT: &str = "Message::fmt";
+pub const S_HOOK: &str = "hooks::webhook_payload";
+pub const S_STRATUM: &str = "stratum::handle_submit";
 
 const ST_SEG: &[&str] = &[S_ID_ARITH, S_SEG_RANGE, S_SEG_ROOT, S_SEG_FUP, S_SEG_VALIDATE, S_SEG_VALIDATE_WITH, S_SEG_ACC, S_SEG_PARTS];
 const ST_BITMAP: &[&str] = &[
 	S_BM_INTO, S_ID_ARITH, S_SEG_RANGE, S_SEG_ROOT, S_SEG_FUP, S_SEG_VALIDATE, S_SEG_VALIDATE_WITH, S_SEG_ACC, S_SEG_PARTS, S_BM_APPEND, S_BM_FROM,
 ];
 const ST_SEGREQ: &[&str] = &[S_ID_ARITH, S_FROM_PMMR];
-const ST_TX: &[&str] = &[S_TX_VREAD, S_TX_HASH, S_TX_FEES, S_INPUTS, S_KERN_VERIFY, S_TX_VALIDATE];
+const ST_TX: &[&str] = &[S_TX_VREAD, S_TX_HASH, S_HOOK, S_TX_FEES, S_INPUTS, S_KERN_VERIFY, S_TX_VALIDATE];
 const ST_BODY: &[&str] = &[S_BODY_VREAD];
 const ST_KERNEL: &[&str] = &[S_KERN_VERIFY, S_KERN_ACC];
-const ST_HEADER: &[&str] = &[S_HDR_ACC, S_POW_DIFF];
-const ST_UHEADER: &[&str] = &[S_UH_INTO, S_HDR_ACC, S_POW_DIFF];
+const ST_HEADER: &[&str] = &[S_HDR_ACC, S_POW_DIFF, S_HOOK];
+const ST_UHEADER: &[&str] = &[S_UH_INTO, S_HDR_ACC, S_POW_DIFF, S_HOOK];
 const ST_BLOCK: &[&str] = &[S_BLK_VREAD, S_BLK_HASH, S_HDR_ACC, S_POW_DIFF, S_BLK_FEES, S_INPUTS, S_BLK_COINBASE, S_BLK_VALIDATE, S_CB_FROM];
 const ST_UBLOCK: &[&str] = &[
 	S_UB_INTO, S_BLK_VREAD, S_BLK_HASH, S_HDR_ACC, S_POW_DIFF, S_BLK_FEES, S_INPUTS, S_BLK_COINBASE, S_BLK_VALIDATE, S_CB_FROM,
 ];
-const ST_CB: &[&str] = &[S_CB_ACC, S_HDR_ACC, S_POW_DIFF, S_HYDRATE, S_BLK_VALIDATE];
-const ST_UCB: &[&str] = &[S_UCB_INTO, S_CB_ACC, S_HDR_ACC, S_POW_DIFF, S_HYDRATE, S_BLK_VALIDATE];
+const ST_CB: &[&str] = &[S_CB_ACC, S_HDR_ACC, S_POW_DIFF, S_HYDRATE, S_HOOK, S_BLK_VALIDATE];
+const ST_UCB: &[&str] = &[S_UCB_INTO, S_CB_ACC, S_HDR_ACC, S_POW_DIFF, S_HYDRATE, S_HOOK, S_BLK_VALIDATE];
 const ST_MERKLE: &[&str] = &[S_MP_VERIFY, S_MP_HEX];
 const ST_SEGPROOF: &[&str] = &[S_SP_RECON, S_SP_VALIDATE, S_SP_VALIDATE_WITH];
 const ST_HEX: &[&str] = &[S_COMMIT_FROM, S_HASH_FROM];
-const ST_PUSH: &[&str] = &[S_TX_VREAD, S_TX_HASH, S_TX_FEES, S_INPUTS, S_KERN_VERIFY, S_TX_VALIDATE];
+const ST_PUSH: &[&str] = &[S_TX_VREAD, S_TX_HASH, S_HOOK, S_TX_FEES, S_INPUTS, S_KERN_VERIFY, S_TX_VALIDATE];
 /// `Protocol::consume` dispatches on the message type: the union of the above
 const ST_CODEC: &[&str] = &[
-	S_MSG_FMT, S_TX_VREAD, S_TX_HASH, S_TX_FEES, S_INPUTS, S_KERN_VERIFY, S_TX_VALIDATE, S_UB_INTO, S_BLK_VREAD, S_BLK_HASH, S_HDR_ACC, S_POW_DIFF,
+	S_MSG_FMT, S_TX_VREAD, S_TX_HASH, S_HOOK, S_TX_FEES, S_INPUTS, S_KERN_VERIFY, S_TX_VALIDATE, S_UB_INTO, S_BLK_VREAD, S_BLK_HASH, S_HDR_ACC, S_POW_DIFF,
 	S_BLK_FEES, S_BLK_COINBASE, S_BLK_VALIDATE, S_CB_FROM, S_UCB_INTO, S_CB_ACC, S_HYDRATE, S_UH_INTO, S_LOCATOR, S_ADDRS, S_ARCHIVE, S_ID_ARITH,
 	S_FROM_PMMR, S_BM_INTO, S_SEG_RANGE, S_SEG_ROOT, S_SEG_FUP, S_SEG_VALIDATE, S_SEG_VALIDATE_WITH, S_SEG_ACC, S_SEG_PARTS, S_BM_APPEND, S_BM_FROM,
 ];
 
 const A_EXPLICIT: u64 = 1 << 63;
 pub const AUX_BITMAP: u64 = 1 << 32;
+/// stream inputs: the peer does not close its side after the input (it stays connected and silent)
+pub const AUX_SILENT: u64 = 1 << 62;
 
 /// explicit MMR size (seeds): the size is in the low 32 bits
 pub fn aux_explicit(mmr_size: u64, bitmap: bool) -> u64 {
@@ -289,84 +292,16 @@ fn seg_checks<T: PMMRIndexHashable + Clone>(s: &Segment<T>, c: &CaseIn) -> bool 
 	v1 || v2
 }
 
-// ---- fixtures of the serving side: real MMRs a `Get*Segment` request is answered from
-struct Fixtures {
-	kernels: VecBackend<TxKernel>,
-	outputs: VecBackend<OutputIdentifier>,
-	proofs: VecBackend<RangeProof>,
-	bitmap: BitmapAccumulator,
-}
-
-fn fill_backend<T: PMMRable, F: Fn(u64) -> T>(n: u64, mk: F) -> VecBackend<T> {
-	let mut be: VecBackend<T> = VecBackend::new();
-	{
-		let mut m = PMMR::new(&mut be);
-		for k in 0..n {
-			m.push(&mk(k)).expect("push");
-		}
-	}
-	be
-}
-
-fn fixtures() -> &'static Fixtures {
-	static F: OnceLock<Fixtures> = OnceLock::new();
-	F.get_or_init(|| {
-		alloc_track::unmeasured(|| {
-			let commit = |k: u64, t: u8| {
-				let mut b = [t; 33];
-				b[0] = 8 + (k & 1) as u8;
-				b[1..9].copy_from_slice(&k.to_be_bytes());
-				Commitment::from_vec(b.to_vec())
-			};
-			// the adapters serve kernel segments of height 9..14, bitmap 9..14, output 11..16, rangeproof 7..12:
-			// sizes that give several segments at the lowest served height and a partial last one
-			let kernels = fill_backend(1300, |k| TxKernel {
-				features: KernelFeatures::Coinbase,
-				excess: commit(k, 1),
-				excess_sig: Signature::from_raw_data(&[7u8; 64]).expect("sig"),
-			});
-			let outputs = fill_backend(4500, |k| OutputIdentifier::new(OutputFeatures::Plain, &commit(k, 2)));
-			let proofs = fill_backend(300, |k| {
-				let mut p = [3u8; 675];
-				p[..8].copy_from_slice(&k.to_be_bytes());
-				RangeProof { proof: p, plen: 675 }
-			});
-			let mut bitmap = BitmapAccumulator::new();
-			let nbits = 1300u64 * 1024 + 77;
-			bitmap.init((0..nbits).filter(|i| i % 97 == 0), nbits).expect("accumulator");
-			Fixtures { kernels, outputs, proofs, bitmap }
-		})
-	})
-}
-
-/// `Get{OutputBitmap,Output,RangeProof,Kernel}Segment`: the adapter admits the identifier's height by range, then the
-/// segmenter cuts the segment out of the PMMR (`Segment::from_pmmr`), and the bitmap segment is converted for the wire
-fn serve_segment_request(id: SegmentIdentifier, aux: u64) -> bool {
-	ident_arith(id, pmmr::insertion_to_pmmr_index(1 + (aux & 0xffff) % 3000));
+/// `Get{OutputBitmap,Output,RangeProof,Kernel}Segment`: the adapter admits the identifier's height (the real text of
+/// `NetToChainAdapter::get_*_segment`, see serve.rs), the segmenter cuts the segment out of the PMMR
+/// (`Segment::from_pmmr`), the bitmap segment is converted for the wire and the response body is serialised.  Every
+/// admitted request is noted for the specification's `ServeOK`.
+fn serve_segment_request(id: SegmentIdentifier, c: &CaseIn) -> bool {
+	ident_arith(id, pmmr::insertion_to_pmmr_index(1 + (c.aux & 0xffff) % 3000));
 	st(S_FROM_PMMR, || {
-		let f = fixtures();
-		// the response is built by design: its size is not charged to the decoding of the 41-byte request
-		alloc_track::unmeasured(|| {
-			let mut any = false;
-			if (9..14).contains(&id.height) {
-				let ro = ReadonlyPMMR::at(&f.kernels, f.kernels.size());
-				any |= Segment::from_pmmr(id, &ro, false).is_ok();
-				let ro = f.bitmap.readonly_pmmr();
-				if let Ok(seg) = Segment::from_pmmr(id, &ro, false) {
-					let bs = BitmapSegment::from(seg);
-					any |= bs.into_segment().is_ok();
-				}
-			}
-			if (11..16).contains(&id.height) {
-				let ro = ReadonlyPMMR::at(&f.outputs, f.outputs.size());
-				any |= Segment::from_pmmr(id, &ro, true).is_ok();
-			}
-			if (7..12).contains(&id.height) {
-				let ro = ReadonlyPMMR::at(&f.proofs, f.proofs.size());
-				any |= Segment::from_pmmr(id, &ro, true).is_ok();
-			}
-			any
-		})
+		// the response is built by design: its memory is not charged to the decoding of the 41-byte request (its size is
+		// noted instead)
+		alloc_track::unmeasured(|| crate::serve::serve_all(id, c.ver, false).0)
 	})
 }
 
@@ -426,6 +361,18 @@ fn none<T>(_: T, _: &CaseIn) -> bool {
 	true
 }
 
+/// servers/src/common/hooks.rs `WebHook::on_*_received`: json!({"hash": .., "peer": .., "data": value}) serialised to the
+/// request body (the serde impls of the core types applied to a value that has not been validated yet).  The payload is
+/// built by design, several times the size of the value: its memory is not charged to the decoding.
+fn webhook_payload<T: serde::Serialize>(hash: Hash, data: &T) -> bool {
+	st(S_HOOK, || {
+		alloc_track::unmeasured(|| {
+			let payload = serde_json::json!({"hash": hash.to_hex(), "peer": "10.0.0.1:3414", "data": data});
+			!payload.to_string().is_empty()
+		})
+	})
+}
+
 fn inputs_conv(i: Inputs) -> bool {
 	st(S_INPUTS, || {
 		let n = i.len();
@@ -448,6 +395,7 @@ fn post_tx(tx: Transaction, _: &CaseIn) -> bool {
 		let _ = tx.hash();
 		tx.inputs().len() + tx.outputs().len() + tx.kernels().len() > 0
 	});
+	webhook_payload(tx.hash(), &tx);
 	st(S_TX_FEES, || {
 		// (is_acceptable: shifted_fee < accept_fee; `fee_rate` = fee / weight is only taken of pool entries, which have
 		// passed `validate` and therefore carry a kernel: see the validate step)
@@ -529,6 +477,7 @@ fn post_cb(cb: CompactBlock, _: &CaseIn) -> bool {
 		Err(_) => false,
 	});
 	if let Some(b) = blk {
+		webhook_payload(b.header.hash(), &b);
 		st(S_BLK_VALIDATE, || b.validate(&BlindingFactor::zero()).is_ok());
 	}
 	a
@@ -547,7 +496,10 @@ fn post_uheader(h: UntrustedBlockHeader, _: &CaseIn) -> bool {
 		bh = Some(BlockHeader::from(h));
 		true
 	});
-	header_steps(&bh.expect("header"))
+	let bh = bh.expect("header");
+	let a = header_steps(&bh);
+	webhook_payload(bh.hash(), &bh);
+	a
 }
 fn post_kernel(k: TxKernel, _: &CaseIn) -> bool {
 	let a = st(S_KERN_VERIFY, || k.verify().is_ok());
@@ -675,7 +627,7 @@ fn handle_message(m: Message, c: &CaseIn) -> bool {
 		Message::PeerAddrs(p) => post_peer_addrs(p, c),
 		Message::TxHashSetArchive(a) => post_archive(a, c),
 		Message::GetOutputBitmapSegment(r) | Message::GetOutputSegment(r) | Message::GetRangeProofSegment(r) | Message::GetKernelSegment(r) => {
-			serve_segment_request(r.identifier, c.aux)
+			serve_segment_request(r.identifier, c)
 		}
 		Message::OutputBitmapSegment(r) => post_bitmap_segment(r.segment, c),
 		Message::OutputSegment(r) => seg_checks(&r.response.segment, c),
@@ -707,9 +659,24 @@ fn run_codec(c: &CaseIn) -> Res {
 	let (r, _) = l.accept().expect("accept");
 	drop(l);
 	let _ = w.set_nodelay(true);
-	// inputs are at most 64 KiB: they fit the loopback socket buffers, so the write cannot block
-	w.write_all(c.bytes).expect("write");
-	let _ = w.shutdown(Shutdown::Write);
+	// small inputs fit the loopback socket buffers (the write cannot block); a large one is fed by a second thread
+	// (allocation is counted per thread: the feeder's copy of the input is not charged to the decoder)
+	let silent = c.aux & A_EXPLICIT == 0 && c.aux & AUX_SILENT != 0;
+	let feeder = if c.bytes.len() <= 48 * 1024 {
+		w.write_all(c.bytes).expect("write");
+		if !silent {
+			let _ = w.shutdown(Shutdown::Write);
+		}
+		None
+	} else {
+		let data = alloc_track::unmeasured(|| c.bytes.to_vec());
+		let mut w2 = w.try_clone().expect("clone");
+		Some(std::thread::spawn(move || {
+			// (the reader may refuse the frame and go away: a failed write is not an error)
+			let _ = w2.write_all(&data);
+			let _ = w2.shutdown(Shutdown::Write);
+		}))
+	};
 	alloc_track::begin();
 	let mut codec = Codec::new(pv(c), r);
 	let mut consumed = 0u64;
@@ -741,7 +708,11 @@ fn run_codec(c: &CaseIn) -> Res {
 		}
 	}
 	drop(codec);
+	let _ = w.shutdown(Shutdown::Both);
 	drop(w);
+	if let Some(h) = feeder {
+		let _ = h.join();
+	}
 	let mut r = stream_res(reads > 0, consumed, reads - zero_reads.min(reads));
 	r.post_ok = reads > 0 && post;
 	r
@@ -843,6 +814,23 @@ fn run_json_tx(c: &CaseIn) -> Res {
 	}
 }
 
+/// servers/src/mining/stratumserver.rs: every line a miner sends is parsed as a JSON-RPC request whose `params` is a
+/// free-form JSON value; "submit" hands it to `Handler::handle_submit` (real text, see stratum.rs), which rebuilds the
+/// block header from the submitted nonce / edge_bits / cycle and validates the share.  The low bit of the check
+/// parameter chooses whether a share can count as a full block (`process_block`, which the stand-in chain refuses).
+fn run_stratum_submit(c: &CaseIn) -> Res {
+	let s = input_str(c);
+	alloc_track::begin();
+	match serde_json::from_str::<serde_json::Value>(&s) {
+		Ok(v) => {
+			let mut r = stream_res(true, 0, 0);
+			r.post_ok = st(S_STRATUM, || crate::stratum::submit(v, if c.aux & 1 == 0 { u64::MAX } else { 0 }));
+			r
+		}
+		Err(_) => stream_res(false, 0, 0),
+	}
+}
+
 pub fn targets() -> Vec<Target> {
 	vec![
 		// ---- core
@@ -857,7 +845,7 @@ pub fn targets() -> Vec<Target> {
 		plain!("RangeProof::read", RangeProof),
 		with!("TransactionBody::read", TransactionBody, post_body, ST_BODY),
 		with!("Transaction::read", Transaction, post_tx, ST_TX),
-		with!("BlockHeader::read", BlockHeader, |h, _| header_steps(&h), ST_HEADER),
+		with!("BlockHeader::read", BlockHeader, |h, _| header_steps(&h) & webhook_payload(h.hash(), &h), ST_HEADER),
 		with!("UntrustedBlockHeader::read", UntrustedBlockHeader, post_uheader, ST_UHEADER),
 		with!("Block::read", Block, post_block, ST_BLOCK),
 		with!("UntrustedBlock::read", UntrustedBlock, post_ublock, ST_UBLOCK),
@@ -866,7 +854,7 @@ pub fn targets() -> Vec<Target> {
 		plain!("Proof::read", Proof),
 		plain!("ProofOfWork::read", ProofOfWork),
 		with!("MerkleProof::read", MerkleProof, post_merkle, ST_MERKLE),
-		with!("SegmentIdentifier::read", SegmentIdentifier, |id, c| serve_segment_request(id, c.aux), ST_SEGREQ),
+		with!("SegmentIdentifier::read", SegmentIdentifier, |id, c| serve_segment_request(id, c), ST_SEGREQ),
 		with!("SegmentProof::read", SegmentProof, post_segproof, ST_SEGPROOF),
 		with!("Segment<OutputIdentifier>::read", Segment<OutputIdentifier>, |s, c| seg_checks(&s, c), ST_SEG),
 		with!("Segment<RangeProof>::read", Segment<RangeProof>, |s, c| seg_checks(&s, c), ST_SEG),
@@ -886,7 +874,7 @@ pub fn targets() -> Vec<Target> {
 		plain!("BanReason::read", BanReason),
 		plain!("TxHashSetRequest::read", TxHashSetRequest),
 		with!("TxHashSetArchive::read", TxHashSetArchive, post_archive, &[S_ARCHIVE]),
-		with!("SegmentRequest::read", SegmentRequest, |r, c| serve_segment_request(r.identifier, c.aux), ST_SEGREQ),
+		with!("SegmentRequest::read", SegmentRequest, |r, c| serve_segment_request(r.identifier, c), ST_SEGREQ),
 		with!("SegmentResponse<RangeProof>::read", SegmentResponse<RangeProof>, |r, c| seg_checks(&r.segment, c), ST_SEG),
 		with!("SegmentResponse<TxKernel>::read", SegmentResponse<TxKernel>, |r, c| seg_checks(&r.segment, c), ST_SEG),
 		with!("OutputSegmentResponse::read", OutputSegmentResponse, |r, c| seg_checks(&r.response.segment, c), ST_SEG),
@@ -936,6 +924,12 @@ pub fn targets() -> Vec<Target> {
 			kind: TKind::Str,
 			run: run_json_tx,
 			steps: ST_PUSH,
+		},
+		Target {
+			name: "stratum::submit",
+			kind: TKind::Str,
+			run: run_stratum_submit,
+			steps: &[S_STRATUM],
 		},
 		// ---- streams
 		Target {
